@@ -22,6 +22,8 @@ TOK = {0: "x", 1: "y", 2: "a", 3: "b", 4: "r", 5: "_items", 10: "p_", 11: "pre_"
 
 
 BAD = "bad"
+DEFAULTS = {}
+NEXT = [None]
 
 
 def nm(tokens):
@@ -46,12 +48,18 @@ def make_trait(spec, listenable=True):
 def run_case(case):
     classes = []
     for i, c in enumerate(case["classes"]):
-        ns = {"__prefix__": nm(c["prefix"])}
         unlisten = [list(u) for u in c.get("unlisten", [])]
+        if "base" in c:       # real subclass: only the re-declared traits are in its namespace
+            own = [list(u) for u in c.get("own", [])]
+            ns = {nm(tn): make_trait(spec, listenable=list(tn) not in unlisten)
+                  for tn, spec in c["traits"] if list(tn) in own}
+            classes.append(type("K%d" % i, (classes[c["base"]],), ns))
+            continue
+        ns = {"__prefix__": nm(c["prefix"]), "_parent_default": lambda self: DEFAULTS.get(id(self), NEXT[0])}
         for tn, spec in c["traits"]:
             ns[nm(tn)] = make_trait(spec, listenable=list(tn) not in unlisten)
         classes.append(type("K%d" % i, (HasTraits,), ns))
-    pool = [classes[o["cls"]]() for o in case["objs"]]
+    pool = []
 
     def to_py(v):
         if isinstance(v, dict):
@@ -70,9 +78,21 @@ def run_case(case):
                 return {"obj": i}
         return "other"
 
-    for o, spec in zip(pool, case["objs"]):
-        for tn, v in spec["dict"]:
-            setattr(o, nm(tn), to_py(v))
+    for spec in case["objs"]:
+        cls = classes[spec["cls"]]
+        if spec.get("link_default"):   # the delegate comes from the link attribute's default initialiser; nothing is read
+            NEXT[0] = to_py(spec["dict"][0][1])     # the initialiser may already run inside the constructor
+            o = cls()
+            DEFAULTS[id(o)] = NEXT[0]
+            NEXT[0] = None
+            pool.append(o)
+        elif spec.get("ctor"):      # values (the delegate first, then local values) given as constructor keywords
+            pool.append(cls(**{nm(tn): to_py(v) for tn, v in spec["dict"]}))
+        else:
+            o = cls()
+            pool.append(o)
+            for tn, v in spec["dict"]:
+                setattr(o, nm(tn), to_py(v))
     events = []
 
     def recorder(i, tokmap):
@@ -106,9 +126,13 @@ def run_case(case):
             e = None
         evs = sorted(([i, n, v] for i, n, v in events), key=repr)
         reads, local = [], []
-        for o, ns in zip(pool, names):
+        for o, ns, spec in zip(pool, names, case["objs"]):
             rr, ll = [], []
             for n, kind in ns:
+                if op[0] == "Init" and spec.get("link_default") and kind != "Normal":
+                    rr.append({"err": "OtherError"})      # not read: reading would run the default initialiser
+                    ll.append(kind == "Deleg" and n in o.__dict__)
+                    continue
                 try:
                     rr.append({"v": canon(getattr(o, n))})
                 except Exception as e:  # noqa: BLE001
